@@ -45,6 +45,8 @@ def _case(cfg, S, a, b):
 def _graph_phase(run, cfg, events, depth, label):
     p = core.Part()
     res = graph.explore(lambda: X.new_reader(cfg), events, X.obs, depth, seed=run.seed)
+    for cp in res.crashed:
+        p.merge(cp)
     p.add("graph_states", res.states)
     p.add("graph_transitions", res.transitions)
     p.add("chunk_runs", res.chunk_runs)
